@@ -304,7 +304,11 @@ def run(env, rep):
                     if p[-1] == ("end", "err") or text.startswith("Err("):
                         fails = [t for t in p[prod:] if t[0] == "when" and t[1].startswith("discr(call(") and t[2] == "1"]
                         step = re.sub(r"^discr\(call\((.*)\)\)$", r"\1", fails[-1][1]).split("::")[-1] if fails else re.sub(r"\(.*", "", text)
-                        lost.add(step)
+                        # a later serialize of a message the session built itself cannot fail: the serializer refuses only payloads
+                        # above 16 MiB, and the only unbounded parts of these messages are AMF0 strings of at most 65 535 bytes each
+                        # (assumption A-XFN, stated in DESIGN section 5 C18 R9); every other fallible step is reported
+                        if step != "serialize":
+                            lost.add(step)
                 for step in sorted(lost):
                     rep.bad("C18.R9", "%s::%s|packet-lost-when:%s-fails" % (which, name, step),
                             "%s serializes a packet and can then fail in %s: the call returns the error, the packet is dropped, but the serializer's remembered headers have "
